@@ -296,7 +296,7 @@ func runScenario(sc *Scenario) {
 			atomic.AddInt64(&started, 1)
 			atomic.AddInt64(&done, 1)
 			abs.cids = append(abs.cids, nextCid)
-			emit(map[string]any{"ev": "wop", "op": "store", "idx": idx, "cid": nextCid, "res": "ok"})
+			emit(map[string]any{"ev": "wop", "op": "store", "idx": idx, "cid": nextCid, "res": "ok", "msg": "", "thr": 0})
 			nextCid++
 		}
 		_ = wd.w.DeleteRange(1<<62, 1<<62)
@@ -352,6 +352,10 @@ func runScenario(sc *Scenario) {
 				cid := nextCid
 				nextCid++
 				l := wd.pool.Log(valpool.Ent{Idx: idx, Cid: cid, Sz: 1})
+				thr := int64(-1)
+				if wd.fs != nil {
+					thr = atomic.LoadInt64(&wd.fs.SyncDone) + 1 // the batch is durable once this many syncs completed
+				}
 				err := wd.w.StoreLogs([]*raft.Log{l})
 				amu.Lock()
 				if err == nil {
@@ -360,12 +364,12 @@ func runScenario(sc *Scenario) {
 					}
 					abs.cids = append(abs.cids, cid)
 				}
-				emit(map[string]any{"ev": "wop", "op": "store", "idx": idx, "cid": cid, "res": class(err), "msg": emsg(err)})
+				emit(map[string]any{"ev": "wop", "op": "store", "idx": idx, "cid": cid, "res": class(err), "msg": emsg(err), "thr": thr})
 				amu.Unlock()
 			case "delh", "delt":
 				if empty {
 					err := wd.w.DeleteRange(1<<61, 1<<61) // no-op call (the model's writer still makes the call)
-					emit(map[string]any{"ev": "wop", "op": "noop", "idx": 0, "cid": 0, "res": class(err), "msg": emsg(err)})
+					emit(map[string]any{"ev": "wop", "op": "noop", "idx": 0, "cid": 0, "res": class(err), "msg": emsg(err), "thr": 0})
 					break
 				}
 				if op == "delt" && first == last {
@@ -391,7 +395,7 @@ func runScenario(sc *Scenario) {
 						}
 					}
 				}
-				emit(map[string]any{"ev": "wop", "op": op, "idx": x, "cid": 0, "res": class(err), "msg": emsg(err)})
+				emit(map[string]any{"ev": "wop", "op": op, "idx": x, "cid": 0, "res": class(err), "msg": emsg(err), "thr": 0})
 				amu.Unlock()
 			}
 			atomic.AddInt64(&done, 1)
@@ -452,8 +456,12 @@ func runScenario(sc *Scenario) {
 					if err == nil {
 						cid = wd.pool.Identify(idx, &lg)
 					}
+					sd := int64(1 << 30)
+					if wd.fs != nil {
+						sd = atomic.LoadInt64(&wd.fs.SyncDone) // sampled after the read returned (sound: can only be too large)
+					}
 					emit(map[string]any{"ev": "read", "p": r, "kind": "get", "idx": idx, "res": class(err), "val": cid, "from": from, "to": to,
-						"cs": atomic.LoadInt32(&closeStarted), "msg": emsg(err)})
+						"cs": atomic.LoadInt32(&closeStarted), "msg": emsg(err), "sd": sd})
 				}
 			}
 		})
